@@ -156,8 +156,14 @@ pub fn run(args: &Args) -> i32 {
     for (pi, p) in payloads.iter().enumerate() {
         let l = p.len();
         let sizes_list: Vec<usize> = if pi < 4 { (1..=l).collect() } else { vec![8192, 16384, 27090, 40634, 65535] };
-        for s in sizes_list {
-            let n = l.div_ceil(s);
+        // every chunk size twice: the usual layout (last chunk shorter or equal) and the layout whose last chunk takes the
+        // remainder on top of a full chunk (last chunk LONGER than the others - legal: only non-final chunks must agree)
+        let layouts: Vec<(usize, bool)> = sizes_list.iter().flat_map(|&s| [(s, false), (s, true)]).collect();
+        for (s, long_last) in layouts {
+            let n = if long_last { l / s } else { l.div_ceil(s) };
+            if n == 0 || (long_last && (l % s == 0 || n < 2 || l - s * (n - 1) > 65535)) {
+                continue;
+            }
             let mut sizes = vec![s; n];
             sizes[n - 1] = l - s * (n - 1);
             let mut faults = vec![Fault::None, Fault::ShiftIds];
